@@ -293,6 +293,39 @@ def finishSimple (ci : ClassInfo) (infos : List FieldInfo) (aliases : List Strin
                 then addUnexpected (unexpectedKeys aliases kvs) acc.errs else acc.errs
     if errs.isEmpty then .ok (construct ci infos (rawVals kvs)) else .invalid (.mk [] errs)
 
+/-- `sorted(field.required_by & data.keys())` -/
+def requiringPresent (f : FieldInfo) (kvs : List (String × Py)) : List String :=
+  ((f.requiredBy.filter (fun a => (lookupKey kvs a).isSome)).eraseDups).mergeSort (fun a b => decide (a ≤ b))
+
+/-- is this field absent although a field that requires it (`dependent_required`) is present -/
+def depViolated (f : FieldInfo) (kvs : List (String × Py)) : Bool :=
+  (lookupKey kvs f.alias).isNone && !f.required && !(requiringPresent f kvs).isEmpty
+
+/-- the `missing property (required by [...])` errors of the field loop: one child per violated field -/
+def depMissing : List FieldInfo → List (String × Py) → List (String × List String)
+  | [], _ => []
+  | f :: fs, kvs => if depViolated f kvs then (f.alias, requiringPresent f kvs) :: depMissing fs kvs else depMissing fs kvs
+
+def addDepMissing (ms : List (String × List String)) (errs : List (Key × Err)) : List (Key × Err) :=
+  ms.foldl (fun a m => setChild (.name m.1) (.leaf (.missingRequiredBy m.2)) a) errs
+
+/-! ### `dependent_required` -/
+theorem requiringPresent_nil {f : FieldInfo} (h : f.requiredBy = []) (kvs : List (String × Py)) :
+    requiringPresent f kvs = [] := by
+  unfold requiringPresent; rw [h]; simp
+
+theorem depViolated_false {f : FieldInfo} (h : f.requiredBy = []) (kvs : List (String × Py)) :
+    depViolated f kvs = false := by
+  unfold depViolated; rw [requiringPresent_nil h]; simp
+
+/-- no `dependent_required` on the class: the field loop adds no such error -/
+theorem depMissing_nil : ∀ {infos : List FieldInfo}, (∀ f ∈ infos, f.requiredBy = []) →
+    ∀ kvs, depMissing infos kvs = []
+  | [], _, _ => rfl
+  | f :: fs, h, kvs => by
+    rw [depMissing, depViolated_false (h f (List.mem_cons_self ..))]
+    exact depMissing_nil (fun g hg => h g (List.mem_cons_of_mem _ hg)) kvs
+
 /-- tail of `ObjectMethod.deserialize` (no aggregate fields, no validators) -/
 def finishObj (ci : ClassInfo) (infos : List FieldInfo) (own : List Rule) (ap : Bool) (aliases : List String) (acc : FAcc)
     (kvs : List (String × Py)) : Outcome Val :=
@@ -300,7 +333,8 @@ def finishObj (ci : ClassInfo) (infos : List FieldInfo) (own : List Rule) (ap : 
   | some c => .crash c
   | Option.none =>
     let extra := unexpectedKeys aliases kvs
-    let errs := if kvs.length != acc.count && !ap then addUnexpected extra acc.errs else acc.errs
+    let errs := addDepMissing (depMissing infos kvs)
+                  (if kvs.length != acc.count && !ap then addUnexpected extra acc.errs else acc.errs)
     let vals := if kvs.length != acc.count && ap && ci.kind == .typedDict
                 then acc.vals ++ (extra.filterMap (fun k => (lookupKey kvs k).map (fun v => (k, asVal v))))
                 else acc.vals
@@ -572,7 +606,7 @@ def mappingSel (o : DOpts) (c : Constraints) (k v : Meth) : Meth :=
 
 def simpleOk : List (FieldInfo × Meth) → Bool
   | [] => true
-  | (f, m) :: fs => m.checkOnly && f.alias == f.name && !f.fbod && simpleOk fs
+  | (f, m) :: fs => m.checkOnly && f.alias == f.name && !f.fbod && f.requiredBy.isEmpty && simpleOk fs
 
 def ctorOf (o : DOpts) (ci : ClassInfo) : Ctor :=
   if ci.kind == .typedDict then .noCtor
